@@ -5,6 +5,8 @@
     m <size>                      -> ok s <pg> <i> <len> <cap> | ok p <id> <len> <cap> | err <e>
     f s <pg> <i> | f p <id>       -> ok | err <e>
     w s <pg> <i> <tag> | w p <id> <tag>  -> ok | err <e>
+    (after any `err` reply the model state is reset: the state is consumed linearly so that the maps are
+     updated in place)
     d <c>:<pg>,<pg>;<c>:…  | d -  -> ok <n> <oldpg>.<oldi>><newpg>.<newi> …   (relocations, in order per class) | err <e>
     want                          -> classes DefragAllImproved would defragment now: "ok c c c" / "ok -"
     st                            -> ok <allocs> <bytes> <privMmaps> <sharedMmaps> <nlive> <nextPage>
@@ -65,7 +67,7 @@ def step (s : St) (toks : List String) : St × String :=
   | ["m", size] => match size.toNat? with
     | none => bad
     | some size => match malloc s size with
-      | .error e => (s, s!"err {errStr e}")
+      | .error e => (Alloc.init, s!"err {errStr e}")
       | .ok (s', a) =>
         let (len, cap) := match s'.mem.get? a with | some m => (m.len, m.cap) | none => (0, 0)
         match a with
@@ -74,19 +76,19 @@ def step (s : St) (toks : List String) : St × String :=
   | "f" :: rest => match parseAddr rest with
     | some (a, []) => match free s a with
       | .ok s' => (s', "ok")
-      | .error e => (s, s!"err {errStr e}")
+      | .error e => (Alloc.init, s!"err {errStr e}")
     | _ => bad
   | "w" :: rest => match parseAddr rest with
     | some (a, [tag]) => match tag.toNat? with
       | none => bad
       | some v => match write s a v with
         | .ok s' => (s', "ok")
-        | .error e => (s, s!"err {errStr e}")
+        | .error e => (Alloc.init, s!"err {errStr e}")
     | _ => bad
   | ["d", ch] => match parseChoice ch with
     | none => bad
     | some ch => match defragAll s ch with
-      | .error e => (s, s!"err {errStr e}")
+      | .error e => (Alloc.init, s!"err {errStr e}")
       | .ok s' =>
         let rl := s'.relog.reverse
         (s', s!"ok {rl.length} " ++ joinWith " " (rl.map fun (o, n) => s!"{addrStr o}>{addrStr n}"))
